@@ -222,7 +222,7 @@ func receiveFromTransport(ctx context.Context, c *channel, done chan<- struct{})
 			case c.inSesChan <- e:
 				// If a session is received while established,
 				// the receiver goroutine can stop.
-				if c.client {
+				if c.client && e.State.Step() >= c.State().Step() {
 					c.setStateWLock(e.State)
 				}
 				return
